@@ -98,6 +98,18 @@ CLAIMS = {
              "the old handle, for any cached content, configuration, length and buffer position).",
         technique="Lean 4 program-shape theorem + symbolic execution with faults and schedules + resume equivalence via C05",
         design="7 C17"),
+    'C18': dict(
+        text="Proof about the model, decided on the code by the link check and two-radio runs. Theorem Sx.C18_handles_independent: for two radios "
+             "(two chips, two handles with their caches, any build configuration and application reactions) and every interleaving at call "
+             "granularity of two histories, each radio's observations (return codes, outputs, callbacks, every bus transfer) and final chip, "
+             "cache and handle are those of its own history run alone (induction on the interleaving; C18_other_radio_irrelevant as corollary). "
+             "The theorem rests on the shape of the model: a driver program is a function of the handle it is given and of the answers of the "
+             "chip it runs against, nothing else. That the C code has this shape is checked, not proved: the compiled object has no writable "
+             "data or bss symbol (nm/size), and the real driver runs pairs of histories interleaved on two handles bound to two simulated chips "
+             "and alone; per-radio traces must be identical and no request may carry the other handle's spi device; the solo traces are the "
+             "ones compared with the model.",
+        technique="Lean 4 product-system theorem (induction on interleavings) + symbol-table check + interleaved-vs-solo runs of the real driver on two chips",
+        design="7 C18"),
     'C19': dict(
         text="Proof for the driver side, correspondence-only for the backends. Theorem Sx.C19_driver_requests_valid: for either build, any history "
              "(valid arguments, any chip, any schedule, any failing transfers) every transfer put on the bus carries 1..4 bytes (register calls) "
